@@ -22,11 +22,18 @@ def pairwise_links(ref):
     return out
 
 
-def write_0_0_39(ref, L, path, op):
-    """op: {'fmt', 'wrapper': bool, 'shorthand': bool, 'all_defenses': bool, 'order': [ids]}"""
-    import yaml
+def file_order_0_0_39(ref, op):
     order = [i for i in op.get('order', []) if i in ref.live_ids()]
     order += [ref.assets[h].id for h in ref.order if ref.assets[h].id not in order]
+    return order
+
+
+def write_0_0_39(ref, L, path, op, names=None):
+    """op: {'fmt', 'wrapper': bool, 'shorthand': bool, 'all_defenses': bool, 'order': [ids]};
+    names: {asset id: name written to the file} where it differs from the reference."""
+    import yaml
+    order = file_order_0_0_39(ref, op)
+    names = names or {}
     by_id = {ref.assets[h].id: ref.assets[h] for h in ref.order}
     assets = {}
     for i in order:
@@ -34,10 +41,10 @@ def write_0_0_39(ref, L, path, op):
         defaults = L.defenses(a.type)
         defs = {k: v for k, v in a.defenses.items() if op.get('all_defenses') or v != defaults[k]}
         key = str(i)
-        if op.get('shorthand') and not defs and a.name == f'{a.type}:{key}':
+        if op.get('shorthand') and not defs and a.name == f'{a.type}:{key}' and i not in names:
             assets[key] = a.type
         else:
-            d = {'metaconcept': a.type, 'name': a.name}
+            d = {'metaconcept': a.type, 'name': names.get(i, a.name)}
             if defs:
                 d['defenses'] = defs
             assets[key] = d
@@ -141,6 +148,14 @@ def write_scad(ref, L, path, op):
            'xmlns:xmi="http://www.omg.org/XMI" '
            'xmlns:com.foreseeti.kernalCAD="http:///com/foreseeti/ObjectModel.ecore">\n'
            + ''.join(objs) + ''.join(links) + '</com.foreseeti.kernalCAD:XMIObjectModel>\n')
+    import warnings
     with zipfile.ZipFile(path, 'w') as z:
-        z.writestr('model.eom', xml)
+        if op.get('stale_entry'):
+            # the archive was exported to twice (append mode): an older, superseded
+            # model.eom precedes the current one under the same name
+            head, tail = xml.split('\n', 2)[:2], '</com.foreseeti.kernalCAD:XMIObjectModel>\n'
+            z.writestr('model.eom', '\n'.join(head) + '\n' + tail)
+        with warnings.catch_warnings():
+            warnings.simplefilter('ignore')
+            z.writestr('model.eom', xml)
         z.writestr('meta.json', '{}')
